@@ -130,6 +130,24 @@ func runBlock(toks []string) (string, string) {
 		return "NEWERR", "-"
 	}
 	defer blk.Close()
+	// another block of the same kind and size with other bytes, made after the first and alive with
+	// it: blocks do not share what they hold
+	if len(content)%2 == 0 {
+		other := bytes.Map(func(c rune) rune {
+			if c >= 'a' && c <= 'y' {
+				return c + 1
+			}
+			return c
+		}, content)
+		var decoy gowarc.Block
+		catch(func() { decoy, _ = gowarc.VerifNewBlock(kind, other, cached == 1, alg, enc, int64(maxMem), dir) })
+		if decoy != nil {
+			if rd, err := decoy.RawBytes(); err == nil {
+				io.Copy(io.Discard, rd)
+			}
+			defer decoy.Close()
+		}
+	}
 	for i := 0; i < nops; i++ {
 		op := t.next()
 		var o string
